@@ -88,6 +88,7 @@ def gen_case(rng, max_m=1000, small=False, weaver=False, large=False, huge=False
     on_grid = True if weaver else bool(rng.integers(0, 2))
     xr = np.array([x[i] for i in idx], dtype=float)
     extras = 0
+    same_grid = False
     if mode == "search":
         if not on_grid:
             for k, i in enumerate(idx):
@@ -136,6 +137,11 @@ def gen_case(rng, max_m=1000, small=False, weaver=False, large=False, huge=False
                 pts.append(x[idx[-1]] + (x[idx[-1]] - x[idx[-2]]) * float(rng.uniform(0.5, 2)))
                 extras += 2
         x_ref = np.unique(np.array(pts, dtype=float))
+        if rng.integers(0, 10) == 0 and not large and not huge:
+            # the reference is a series on the very grid of the input (a processed series re-matched to its unprocessed
+            # original) and the fixed points are designated explicitly: every other sample is an unmatched reference point
+            x_ref = np.array(x, dtype=float).copy()
+            on_grid, same_grid, extras = True, True, m - K
     y_ref, _ = gen.gen_y(rng, len(x_ref), yc if rng.integers(0, 2) else None)
     if yc == "tiny":
         y_ref = np.abs(y_ref) / max(np.max(np.abs(y_ref)), 1e-300) * 5e-9
@@ -192,7 +198,7 @@ def gen_case(rng, max_m=1000, small=False, weaver=False, large=False, huge=False
         other = sorted(set(int(v) for v in rng.choice(np.arange(m), size=min(m, max(2, K)), replace=False)))
         both = other if other != sorted(idx) else None
     case = {"x": x, "y": y, "x_ref": x_ref, "y_ref": y_ref, "idx": idx, "mode": mode, "both_given": both, "alpha_arg": alpha_arg, "idx_dtype": idx_dtype, "strategy": strategy, "perm": perm,
-            "on_grid": on_grid, "extras": extras, "alpha": alpha,
+            "on_grid": on_grid, "same_grid": same_grid, "extras": extras, "alpha": alpha,
             "target_rule": RULES[int(rng.integers(0, 2))], "ref_rule": RULES[int(rng.integers(0, 2))],
             "xcls": xc, "ycls": yc, "burst": burst, "int32": int32, "m": m, "K": K, "weaver": bool(weaver),
             "omit_defaults": bool(rng.integers(0, 2)), "strategy_with_explicit": bool(rng.integers(0, 2))}
@@ -404,7 +410,7 @@ def judge_c03(ctx, cid, case, res, fi, ri):
 
 
 def brief(case):
-    d = {k: case[k] for k in ("mode", "strategy", "on_grid", "extras", "alpha", "target_rule", "ref_rule", "xcls",
+    d = {k: case[k] for k in ("mode", "strategy", "on_grid", "same_grid", "extras", "alpha", "target_rule", "ref_rule", "xcls",
                               "ycls", "burst", "int32", "m", "K", "idx", "weaver", "perm", "both_given", "idx_dtype") if k in case}
     if case["m"] <= 24:
         d.update({"x": case["x"], "y": case["y"], "x_ref": case["x_ref"], "y_ref": case["y_ref"]})
